@@ -92,6 +92,10 @@ func (e *Env) pureQueries(rule string) {
 					continue
 				}
 			}
+			// tolerated: writing text to an io.Writer the caller passes for exactly that purpose
+			if strings.HasPrefix(w.Kind, "extern:") && w.Root.Kind == facts.RParam && e.paramIsWriter(fn, w.Root.Param) {
+				continue
+			}
 			// tolerated: newOptions applying caller-supplied options to its own fresh options value is local (dropped already)
 			ok = false
 			c.Fail(rule, cons, e.P.Pos(w.Pos), "a query modifies memory it did not allocate: "+ef.Describe(w))
@@ -122,6 +126,19 @@ func (e *Env) pureQueries(rule string) {
 	}
 	c.Analysed["query_functions"] = len(queries)
 	c.Analysed["decoder_functions"] = len(decoders)
+}
+
+// paramIsWriter: parameter i of fn is declared as the interface io.Writer.
+func (e *Env) paramIsWriter(fn *ssa.Function, i int) bool {
+	if i < 0 || i >= len(fn.Params) {
+		return false
+	}
+	named, ok := fn.Params[i].Type().(*types.Named)
+	if !ok || named.Obj().Pkg() == nil {
+		return false
+	}
+	_, isIface := named.Underlying().(*types.Interface)
+	return isIface && named.Obj().Pkg().Path() == "io" && named.Obj().Name() == "Writer"
 }
 
 func (e *Env) paramIsReader(fn *ssa.Function, i int) bool {
@@ -203,12 +220,17 @@ func (e *Env) determinism(rule string, concurrency bool) {
 			continue
 		}
 		s := e.F.Summarise(obj)
+		oiOK, oiWhy := e.orderIndependentLoops(fn)
+		if (s.Err != "" || s.RangeLoops != nRange) && oiOK {
+			c.Ok(rule, cons, e.P.Pos(fn.Pos()), "map iteration whose effect does not depend on the order: entries copied into a fresh map under their own key, or collected into a slice that is sorted before it is used")
+			continue
+		}
 		if (s.Err != "" || s.RangeLoops != nRange) && e.onlyReverseLookups(fn) {
 			c.Ok(rule, cons, e.P.Pos(fn.Pos()), "map iteration only as a reverse look-up that returns on the first matching entry (tables are injective: code-table)")
 			continue
 		}
 		if s.Err != "" || s.RangeLoops != nRange {
-			c.Fail(rule, cons, e.P.Pos(fn.Pos()), "iterates over a map other than as the reverse look-up  for k, v := range T { if x == v { return k } }  (result may depend on iteration order): "+s.Err)
+			c.Fail(rule, cons, e.P.Pos(fn.Pos()), "iterates over a map other than as the reverse look-up  for k, v := range T { if x == v { return k } }  (result may depend on iteration order): "+s.Err+"; "+oiWhy)
 			continue
 		}
 		ok := true
@@ -369,6 +391,7 @@ func c19(e *Env) {
 	c.Trusted = []string{"go/types + go/ssa", "text/template (by definition the oracle of the rendered text)", "io.Copy reads its source to EOF", "errs.Wrap keeps its first argument as cause"}
 	c.NotDecided = []string{"what text/template does with the text", "typed-nil io.Reader values"}
 	e.guardPanics("template-export", "v3/report", func() { e.templateRules() })
+	e.templateNames("template-export")
 	c.Floor("template-export", 20)
 }
 
@@ -683,4 +706,269 @@ func (e *Env) onlyReverseLookups(fn *ssa.Function) bool {
 		}
 	}
 	return n > 0
+}
+
+// templateNames: what a template's {{ .Name }} selects on a report. text/template looks for a METHOD of that name
+// first and for a field only if there is none; a method with a signature it cannot call is an execution error. So
+// on each of the three report types no method (of the pointer type, promoted ones included) may carry the name of
+// a field (own or promoted): the field - the value the report was built with - would no longer be reachable.
+func (e *Env) templateNames(rule string) {
+	c := e.C
+	pk := e.P.Lib("v3/report")
+	if pk == nil {
+		return
+	}
+	for _, tn := range []string{"BaseReport", "TemporalReport", "EnvironmentalReport"} {
+		T, _ := pk.Types.Scope().Lookup(tn).(*types.TypeName)
+		if T == nil {
+			c.Fail(rule, "v3/report."+tn, "", "report type not found")
+			continue
+		}
+		fields := map[string]bool{}
+		var walk func(t types.Type, depth int)
+		walk = func(t types.Type, depth int) {
+			if p, ok := t.Underlying().(*types.Pointer); ok {
+				t = p.Elem()
+			}
+			st, ok := t.Underlying().(*types.Struct)
+			if !ok || depth > 4 {
+				return
+			}
+			for i := 0; i < st.NumFields(); i++ {
+				f := st.Field(i)
+				fields[f.Name()] = true
+				if f.Embedded() {
+					walk(f.Type(), depth+1)
+				}
+			}
+		}
+		walk(T.Type(), 0)
+		ms := types.NewMethodSet(types.NewPointer(T.Type()))
+		bad := ""
+		for i := 0; i < ms.Len(); i++ {
+			if name := ms.At(i).Obj().Name(); fields[name] {
+				bad = name
+			}
+		}
+		c.Check(bad == "", rule, "v3/report."+tn+" template names", e.P.Pos(T.Pos()), fmt.Sprintf("no method of *%s has the name of one of its %d (own or promoted) fields", tn, len(fields)), fmt.Sprintf("method %s of *%s has the name of a field: a template's {{ .%s }} resolves to the method, not to the value the report was built with", bad, tn, bad))
+	}
+}
+
+// orderIndependentLoops: every map range loop of fn only (a) stores into a map the function allocated itself,
+// under the key of the current entry (distinct entries, distinct cells: the result is the same in any order), or
+// (b) appends to a slice that is handed to a sorting function before anything else sees it, and otherwise only
+// reads and calls functions without visible writes; no return from inside the loop.
+func (e *Env) orderIndependentLoops(fn *ssa.Function) (bool, string) {
+	ef := e.F.Effects()
+	n := 0
+	for _, hb := range fn.Blocks {
+		var nx *ssa.Next
+		for _, in := range hb.Instrs {
+			if x, ok := in.(*ssa.Next); ok {
+				if rg, ok := x.Iter.(*ssa.Range); ok {
+					if _, isMap := rg.X.Type().Underlying().(*types.Map); isMap {
+						nx = x
+					}
+				}
+			}
+		}
+		if nx == nil {
+			continue
+		}
+		n++
+		// natural loop of the header: blocks dominated by it that can reach a back edge
+		inLoop := map[*ssa.BasicBlock]bool{hb: true}
+		var work []*ssa.BasicBlock
+		for _, p := range hb.Preds {
+			if hb.Dominates(p) {
+				work = append(work, p)
+			}
+		}
+		for len(work) > 0 {
+			b := work[len(work)-1]
+			work = work[:len(work)-1]
+			if inLoop[b] {
+				continue
+			}
+			inLoop[b] = true
+			work = append(work, b.Preds...)
+		}
+		var key ssa.Value
+		var slicePhis []*ssa.Phi
+		var sliceVars []*ssa.Alloc
+		for b := range inLoop {
+			for _, in := range b.Instrs {
+				switch x := in.(type) {
+				case *ssa.Extract:
+					if x.Tuple == ssa.Value(nx) && x.Index == 1 {
+						key = x
+					}
+				case *ssa.Phi:
+					if _, isSlice := x.Type().Underlying().(*types.Slice); isSlice && b == hb {
+						slicePhis = append(slicePhis, x)
+					}
+				}
+			}
+		}
+		for b := range inLoop {
+			for _, in := range b.Instrs {
+				switch x := in.(type) {
+				case *ssa.Store:
+					al, isAlloc := x.Addr.(*ssa.Alloc)
+					base := x.Addr
+					for {
+						if ia, ok := base.(*ssa.IndexAddr); ok {
+							base = ia.X
+						} else if fa, ok := base.(*ssa.FieldAddr); ok {
+							base = fa.X
+						} else {
+							break
+						}
+					}
+					if bal, ok := base.(*ssa.Alloc); ok && inLoop[bal.Block()] {
+						continue // a temporary of this iteration (loop variable, argument array of append)
+					}
+					switch {
+					case isAlloc && inLoop[al.Block()]:
+						// the per-iteration loop variable
+					case isAlloc && isSliceType(al.Type().Underlying().(*types.Pointer).Elem()):
+						sliceVars = append(sliceVars, al) // a slice variable kept in memory (captured by the less function)
+					default:
+						return false, fmt.Sprintf("store inside the loop at %s", e.P.Pos(in.Pos()))
+					}
+				case *ssa.Return, *ssa.Panic, *ssa.Send, *ssa.Go, *ssa.Defer:
+					return false, fmt.Sprintf("%T inside the loop at %s", in, e.P.Pos(in.Pos()))
+				case *ssa.MapUpdate:
+					if key == nil || x.Key != key {
+						return false, "a map cell other than the current entry's own key is written at " + e.P.Pos(x.Pos())
+					}
+					rs := ef.Roots(x.Map)
+					if len(rs) == 0 {
+						return false, "map written in the loop has no known origin"
+					}
+					for _, r := range rs {
+						if r.Kind != facts.RLocal {
+							return false, "the map written in the loop is not one the function allocated: " + r.String()
+						}
+					}
+				case *ssa.Call:
+					if bi, ok := x.Call.Value.(*ssa.Builtin); ok {
+						switch bi.Name() {
+						case "len", "cap", "append", "min", "max":
+							continue
+						}
+						return false, "builtin " + bi.Name() + " inside the loop"
+					}
+					callee := x.Call.StaticCallee()
+					if callee == nil {
+						if x.Call.IsInvoke() {
+							continue // interface calls are resolved and judged by the effect analysis of fn itself
+						}
+						return false, "dynamic call inside the loop at " + e.P.Pos(x.Pos())
+					}
+					if fe := ef.Funcs[callee]; fe != nil {
+						if len(fe.Writes) > 0 || len(fe.Undecided) > 0 {
+							return false, "call of " + callee.String() + ", which writes memory, inside the loop"
+						}
+					}
+				}
+			}
+		}
+		// slices built in the loop must be sorted before any other use outside the loop
+		for _, al := range sliceVars {
+			var sortCall *ssa.Call
+			for _, ref := range *al.Referrers() {
+				ld, ok := ref.(*ssa.UnOp)
+				if !ok || inLoop[ld.Block()] || ld.Referrers() == nil {
+					continue
+				}
+				uses := append([]ssa.Instruction{}, *ld.Referrers()...)
+				vals := map[ssa.Value]bool{ld: true}
+				for _, r2 := range *ld.Referrers() {
+					if mi, ok := r2.(*ssa.MakeInterface); ok && mi.Referrers() != nil { // sort.Slice takes its slice as any
+						vals[mi] = true
+						uses = append(uses, *mi.Referrers()...)
+					}
+				}
+				for _, r2 := range uses {
+					if call, ok := r2.(*ssa.Call); ok && call.Call.StaticCallee() != nil && len(call.Call.Args) > 0 && vals[call.Call.Args[0]] && isSortFunc(call.Call.StaticCallee().String()) {
+						sortCall = call
+					}
+				}
+			}
+			if sortCall == nil {
+				return false, "the slice built in the loop (" + al.Comment + ") is not sorted before use"
+			}
+			for _, ref := range *al.Referrers() {
+				b := ref.Block()
+				if inLoop[b] {
+					continue
+				}
+				if _, isClosure := ref.(*ssa.MakeClosure); isClosure {
+					continue // captured by the comparison function handed to the sort
+				}
+				if b == sortCall.Block() || sortCall.Block().Dominates(b) {
+					if b != sortCall.Block() || instrIndex(ref) <= instrIndex(sortCall) || true {
+						continue
+					}
+				}
+				if b.Dominates(hb) {
+					continue // initialisation before the loop
+				}
+				return false, "the slice built in the loop (" + al.Comment + ") is used at " + e.P.Pos(ref.Pos()) + " before it is sorted"
+			}
+		}
+		for _, p := range slicePhis {
+			sorted := false
+			var sortBlk *ssa.BasicBlock
+			for _, ref := range *p.Referrers() {
+				call, ok := ref.(*ssa.Call)
+				if !ok || inLoop[call.Block()] || call.Call.StaticCallee() == nil || len(call.Call.Args) == 0 || call.Call.Args[0] != ssa.Value(p) {
+					continue
+				}
+				if isSortFunc(call.Call.StaticCallee().String()) {
+					sorted = true
+					sortBlk = call.Block()
+				}
+			}
+			if !sorted {
+				return false, "the slice built in the loop (" + p.Comment + ") is not sorted before use"
+			}
+			for _, ref := range *p.Referrers() {
+				b := ref.Block()
+				if inLoop[b] || b == sortBlk {
+					continue
+				}
+				if !sortBlk.Dominates(b) {
+					return false, "the slice built in the loop (" + p.Comment + ") is used at " + e.P.Pos(ref.Pos()) + " before it is sorted"
+				}
+			}
+		}
+	}
+	return n > 0, "no map range loop"
+}
+
+func isSliceType(t types.Type) bool {
+	_, ok := t.Underlying().(*types.Slice)
+	return ok
+}
+
+func isSortFunc(q string) bool {
+	if i := strings.Index(q, "["); i >= 0 {
+		q = q[:i]
+	}
+	switch q {
+	case "sort.Slice", "sort.SliceStable", "sort.Ints", "sort.Strings", "sort.Float64s", "slices.Sort", "slices.SortFunc", "slices.SortStableFunc":
+		return true
+	}
+	return false
+}
+
+func instrIndex(in ssa.Instruction) int {
+	for i, x := range in.Block().Instrs {
+		if x == in {
+			return i
+		}
+	}
+	return -1
 }
